@@ -10,8 +10,8 @@ identity of a process is (pid, incarnation uid) kept by simk.
 from vf.harness import use_world, outcome, freeze, residue, ModuleResidue
 from vf.simk.world import World, CLK_TCK
 
-ACTIONS = ["kill", "nice5", "rlimit", "aff0", "ionice", "sig0", "terminate", "suspend", "resume",
-           "sig64", "affall"]
+ACTIONS = ["kill", "nice5", "rlimit", "aff0", "ionice", "sig0", "affall", "terminate", "suspend", "resume",
+           "sig64", "sig65"]
 
 
 def do_action(psutil, o, a):
@@ -27,6 +27,8 @@ def do_action(psutil, o, a):
         return o.send_signal(64)
     if a == "sig0":
         return o.send_signal(0)
+    if a == "sig65":
+        return o.send_signal(65)          # not a signal number: the kernel answers EINVAL whatever the pid
     if a == "nice5":
         return o.nice(5)
     if a == "ionice":
@@ -40,10 +42,14 @@ def do_action(psutil, o, a):
     raise AssertionError(a)
 
 
+# events that only ask: whatever the circumstances (permission faults included) they cannot change which held objects are
+# equal, nor any hash
+PURE = ("q", "create_time", "boot_time", "is_running", "os_enter", "os_exit", "iter")
+
 EXPECT = {"kill": ("kill", (9,)), "terminate": ("kill", (15,)), "suspend": ("kill", (19,)),
           "resume": ("kill", (18,)), "sig64": ("kill", (64,)), "sig0": ("kill", (0,)), "nice5": ("setpriority", (5,)),
           "ionice": ("ioprio_set", (2, 3)), "rlimit": ("prlimit", (7, (7, 9))),
-          "aff0": ("affinity_set", ((0,),)), "affall": ("affinity_set", ((0, 1),))}
+          "aff0": ("affinity_set", ((0,),)), "affall": ("affinity_set", ((0, 1),)), "sig65": ("kill", (65,))}
 
 
 def _norm(x):
@@ -71,7 +77,7 @@ def mk_popen(ps, pid):
 
 class Cfg:
     def __init__(self, seed=0, slots=("A", "B"), max_objs=2, actions=(), clock=False,
-                 queries=("name",), numeric=False, use_iter=True, use_exit=True, max_denies=0, oneshot=False, popen=False,
+                 queries=("name",), numeric=False, use_iter=True, use_exit=True, max_denies=0, max_faults=0, create_time_event=False, oneshot=False, popen=False,
                  own_pid=None, iterhold=False, comm=None):
         self.seed = seed
         base = 1000 + (seed % 9) * 13
@@ -90,6 +96,8 @@ class Cfg:
         if own_pid:
             self.pid["A"] = own_pid       # the pid of the interpreter that imported psutil
         self.oneshot = oneshot            # enter/exit of a oneshot() block on object 0
+        self.create_time_event = create_time_event     # create_time() queries even without clock events
+        self.max_faults = max_faults      # one-shot resource failures (EMFILE) of the next open() of /proc/<pid>/stat
         self.max_denies = max_denies      # permission faults: /proc/<pid>/stat of ONE incarnation becomes unreadable
         self.btime0 = 1700000000 + (seed % 5) * 3600
         self.j0 = 500000 + (seed % 7) * 1000
@@ -112,6 +120,7 @@ class Exec:
         self.viols = []
         self.label = ""
         self.ndeny = 0
+        self.nfault = 0
         self.modres = ModuleResidue([psutil, psutil._pslinux, psutil._common, psutil._psposix],
                                     known=("_pmap", "_pids_reused", "_LOWEST_PID", "BOOT_TIME"))
         self.cms = {}         # object index -> entered oneshot() context manager
@@ -137,6 +146,15 @@ class Exec:
                 p = w.procs.get(c.pid[s])
                 if p is not None and not p.zombie and "stat" not in p.denied:
                     ev.append(["deny", s])
+        for s in c.slots:
+            p = w.procs.get(c.pid[s])
+            if p is not None and "stat" in p.denied:
+                ev.append(["allow", s])
+        if self.nfault < c.max_faults:
+            for s in c.slots:
+                p = w.procs.get(c.pid[s])
+                if p is not None and not p.zombie and not getattr(p, "fail_once", None):
+                    ev.append(["fault", s])
         if len(self.objs) < c.max_objs:
             for s in c.slots:
                 ev.append(["new", s])
@@ -155,6 +173,7 @@ class Exec:
                     ev.append(["iterhold", s])
         if c.clock:
             ev += [["boot_time"], ["step-"], ["tick100"], ["step+"]]
+        if c.clock or c.create_time_event:
             for i in range(len(self.objs)):
                 ev.append(["create_time", i])
         for i in range(len(self.objs)):
@@ -178,6 +197,8 @@ class Exec:
         k = ev[0]
         n0 = len(w.effects)
         lab = k
+        before = self.eq_matrix() if k in PURE else None
+        armed0 = [p for p in w.procs.values() if getattr(p, "fail_once", None)]
         if k == "spawn":
             w.tick(1)      # a recycled pid's new owner starts at a later jiffy
             w.spawn(c.pid[ev[1]], ppid=1, comm=c.comm.get(ev[1], b"p" + ev[1].encode()))
@@ -190,6 +211,12 @@ class Exec:
         elif k == "deny":
             w.procs[c.pid[ev[1]]].denied.add("stat")
             self.ndeny += 1
+        elif k == "allow":
+            w.procs[c.pid[ev[1]]].denied.discard("stat")
+        elif k == "fault":
+            import errno as _e
+            w.procs[c.pid[ev[1]]].fail_once = {"stat": _e.EMFILE}
+            self.nfault += 1
         elif k == "os_enter":
             cm = self.objs[ev[1]].oneshot()
             out = outcome(cm.__enter__)
@@ -229,7 +256,7 @@ class Exec:
             out = outcome(self.objs[i].is_running)
             exp = self.ident(i)
             lab = "is_running:%s" % (out[1] if out[0] == "ok" else out[1])
-            if self.ndeny:
+            if self.ndeny or self.nfault:
                 pass       # a refused identity re-check is C03's business (known finding there), not judged here
             elif out[0] != "ok" or out[1] is not exp:
                 self.viol("is_running:%s-expected-%s" % (out[1] if out[0] == "ok" else out[1], exp),
@@ -287,7 +314,16 @@ class Exec:
             for e in w.effects[n0:]:
                 self.viol("effect-from-%s" % k, "event %r delivered %r" % (ev, e))
         self.label = lab
+        if before is not None:
+            after = self.eq_matrix()
+            if after != before:
+                self.viol("query-changed-equality-or-hash:%s" % k,
+                          "a mere query (%r) changed ==/hash() of held objects: before %r after %r" % (ev, before, after))
         self.check_identity()
+        if any(not p.fail_once for p in armed0):
+            # the armed resource failure hit an open() made by this event: the bare OSError(EMFILE) it produces is the
+            # caller's to handle (no psutil error class stands for it); what must still hold is judged by the other oracles
+            self.viols = [v for v in self.viols if "[Errno 24]" not in v["msg"]]
 
     def apply_action(self, i, a):
         ps, w = self.psutil, self.w
@@ -318,16 +354,28 @@ class Exec:
             if not (out[0] == "exc" and out[1] == "NoSuchProcess"):
                 self.viol("no-NSP-on-recycled-pid:%s" % ("object-already-marked-gone" if was_gone else "object-not-marked"),
                           "%s() on a recycled pid returned %r instead of raising NoSuchProcess" % (a, out))
-        if out[0] == "exc" and out[1] not in ("NoSuchProcess", "ZombieProcess", "AccessDenied"):
+        if a == "sig65" and out[0] == "exc" and out[1] in ("OSError", "ValueError"):
+            pass          # an invalid signal number is the caller's error; it says nothing about the process
+        elif out[0] == "exc" and out[1] not in ("NoSuchProcess", "ZombieProcess", "AccessDenied"):
             self.viol("action-leak:%s:%s" % (a, out[1]), "%s() raised %r" % (a, out))
         if own and out[0] == "exc" and out[1] == "NoSuchProcess" and not w.procs[o.pid].zombie:
             # not demanded by C01's statement (see DESIGN): reported under C02's oracle instead
             pass
 
+    def eq_matrix(self):
+        objs = self.objs
+        m = []
+        for i in range(len(objs)):
+            h = outcome(hash, objs[i])
+            m.append(("h", i, h[1] if h[0] == "ok" else h[1]))
+            for j in range(i + 1, len(objs)):
+                m.append((i, j, objs[i] == objs[j], objs[i] != objs[j]))
+        return m
+
     # ---------------------------------------------------- C02 invariants
     def check_identity(self):
         """==/hash over every pair of held objects (pure, evaluated after every event)."""
-        if self.ndeny:
+        if self.ndeny or self.nfault:
             return       # identity under permission faults is outside C02's quantifier (see C03's known finding)
         objs = self.objs
         for i, o in enumerate(objs):
@@ -362,7 +410,8 @@ class Exec:
             if p is None:
                 slots[s] = None
             else:
-                slots[s] = ["Z" if p.zombie else ("D" if "stat" in p.denied else "R"), p.uid, p.start]
+                slots[s] = ["Z" if p.zombie else ("D" if "stat" in p.denied else ("F" if getattr(p, "fail_once", None) else "R")),
+                            p.uid, p.start]
         # relabel incarnation uids by order of appearance (uids are allocation counters)
         uids = sorted({v[1] for v in slots.values() if v} | {u for u in self.ouid if u is not None})
         rel = {u: n for n, u in enumerate(uids)}
@@ -407,7 +456,7 @@ class Exec:
         key = {"slots": {s: (None if v is None else [v[0], rel[v[1]]] + ([v[2] - c.j0] if c.numeric else []))
                          for s, v in slots.items()},
                "objs": objs, "pmap": pmap, "reused": sorted(ps._pids_reused),
-               "lowest": ps._LOWEST_PID, "ranf": list(self.ran_false), "ndeny": self.ndeny,
+               "lowest": ps._LOWEST_PID, "ranf": list(self.ran_false), "ndeny": self.ndeny, "nfault": self.nfault,
                "modules": self.modres.diff()}
         if c.numeric:
             key["bt"] = None if lin.BOOT_TIME is None else lin.BOOT_TIME - c.btime0
